@@ -7,6 +7,7 @@
    A `&str` is a `list N` satisfying usv_list. *)
 From RU Require Import Base.Prelude Base.Utf8 Gen.Tables Model.Mime
   Proofs.C19_Tables Proofs.C19_Pure Proofs.C19_Normal Proofs.C19_RT.
+From RU Require Spec.MimeSniff Proofs.C17_Mime.
 
 (* the regenerated IS_HTTP_TOKEN table is exactly the RFC 7230 token set, and the lookup never
    leaves the table for a byte *)
@@ -93,6 +94,19 @@ Qed.
 Check C19_get : forall s m n v, usv_list s -> parse s = Ok (Some m) ->
   (In (n, v) (m_params m) <-> get_parameter (m_params m) n = Some v).
 Print Assumptions C19_get.
+
+(* conformance: on every string of HTTP quoted-string token code points (TAB, 0x20-0x7E, 0x80-0xFF - finding
+   F-C19-2 needs a code point outside) Mime::from_str IS the MIME Sniffing Standard's "parse a MIME type"
+   (Spec/MimeSniff.v, validated against the vendored WPT mime-types vectors); proved for C17 in
+   Proofs/C17_Mime.v by a simulation between the crate's split-at-';' parser and the Standard's position loop *)
+Theorem C19_spec_equiv : forall t, Forall (fun c => MimeSniff.http_quoted_string_token_cp c = true) t ->
+  parse t = Ok (option_map (fun r => mk_mime (MimeSniff.mt_type r) (MimeSniff.mt_subtype r) (MimeSniff.mt_parameters r))
+                           (MimeSniff.parse_a_mime_type t)).
+Proof. exact C17_Mime.mime_parse_equiv. Qed.
+Check C19_spec_equiv : forall t, Forall (fun c => MimeSniff.http_quoted_string_token_cp c = true) t ->
+  parse t = Ok (option_map (fun r => mk_mime (MimeSniff.mt_type r) (MimeSniff.mt_subtype r) (MimeSniff.mt_parameters r))
+                           (MimeSniff.parse_a_mime_type t)).
+Print Assumptions C19_spec_equiv.
 
 (* non-vacuity: `TEXT/Plain ;A=1;a=2;x="p;\"q\\";y=` parses (the duplicate `a` and the empty `y`
    are dropped, the quoted value is unescaped across the ';'), its serialization
